@@ -1,4 +1,4 @@
-import IgrisModel.C19.Ptr
+import IgrisModel.C19.Model3
 open Igris.Proto Igris.C19
 
 def fmtToks (v : List Str) : String :=
@@ -150,7 +150,7 @@ def stepLine2 (line : String) : Option String :=
       pure (fmtDispatch (rshellExecuteV args n d))
   | _ => none
 
-def stepLine (_ : Unit) (line : String) : Unit × String :=
+def stepCore (line : String) : String :=
   let r : Option String :=
     match words line with
     | ["reset"] => some "ok"
@@ -265,6 +265,112 @@ def stepLine (_ : Unit) (line : String) : Unit × String :=
         let b ← parseBytes? b
         pure (fmtCreader b)
     | _ => stepLine2 line
-  ((), r.getD "bad-op")
+  r.getD "bad-op"
+
+/-! ## round 3: cases on fixed addresses, long inputs, pre-main calls, constants -/
+
+/-- the words of a `re` case cut at the `/` words -/
+def splitCalls : List String → List String → List (List String)
+  | [], cur => [cur.reverse]
+  | w :: ws, cur => if w = "/" then cur.reverse :: splitCalls ws [] else splitCalls ws (w :: cur)
+
+def fnv32 (s : String) : Nat :=
+  s.foldl (fun h c => ((h ^^^ c.toNat) * 16777619) % 4294967296) 2166136261
+
+def digest (s : String) : String := toString s.length ++ " " ++ hexOfNat 8 (fnv32 s)
+
+def fmtOff (total : Nat) : Option (Option Cur) → String
+  | none => "fault"
+  | some none => "null"
+  | some (some c) => toString (total - c.length)
+
+def fmtCreaderL (mem : Str) : String :=
+  match creaderAll mem (mem.length + 2) 0 with
+  | none => "fault"
+  | some (l, ended) =>
+    String.join (l.map fun (t, len, c) => toString t ++ ":" ++ toString len ++ ":" ++ toString c ++ " ")
+      ++ (if ended then "end" else "LOOP")
+
+/-- long inputs run on the list-level models (linear; proved equal to the pointer-level ones
+by the `…P_refines` theorems), `@` stands for the expanded buffer -/
+def stepLong (big : Str) : List String → Option String
+  | ["splitc", "@", d] => do
+      let d ← parseBytes? d
+      pure (fmtToksO (splitChar big (d.headD NUL)))
+  | ["splitd", "@", d] => do
+      let d ← parseBytes? d
+      pure (fmtToksO (splitDelims big d))
+  | ["cmdargs", "@"] => pure (fmtToksO (splitCmdargs big))
+  | ["trim", "@"] => pure (bytesHex (trim big))
+  | ["memmem", "@", s] => do
+      let s ← parseBytes? s
+      pure (match memmemF big s with | some o => toString o | none => "none")
+  | ["replace", "@", a, b] => do
+      let a ← parseBytes? a
+      let b ← parseBytes? b
+      pure (match replaceF big a b with | some r => bytesHex r | none => "fuel")
+  | ["rsub", m, "@", a, b] => do
+      let m ← m.toNat?
+      let a ← parseBytes? a
+      let b ← parseBytes? b
+      pure (match replaceSubstringsF m big a b with
+            | none => "fuel"
+            | some w => if w.length > m then "fault" else bytesHex (w ++ List.replicate (m - w.length) 0xa5#8))
+  | ["argv", "@", m] => do
+      let m ← m.toNat?
+      pure (fmtArgv (argvSplit (big ++ [NUL]) m))
+  | ["argvn", "@", m] => do
+      let m ← m.toNat?
+      pure (fmtArgv (argvSplitN big m))
+  | ["creader", "@"] => pure (fmtCreaderL big)
+  | ["msh", "@", n] => do
+      let n ← parseNames n
+      pure (fmtDispatch (mshellExecute (big ++ [NUL]) n))
+  | ["pnext", "@"] =>
+      pure (match pathNext (big ++ [NUL]) with
+            | none => "fault"
+            | some none => "null"
+            | some (some (o, l)) => toString o ++ " " ++ toString l)
+  | ["piter", "@"] => pure (fmtOff (big.length + 1) (pathIterate (big ++ [NUL])))
+  | "join" :: d :: toks => do
+      let d ← parseBytes? d
+      if toks.all (· == "@") then pure (bytesHex (join (toks.map fun _ => big) (d.headD NUL))) else none
+  | "joinf" :: d :: pre :: post :: toks => do
+      let d ← parseBytes? d
+      let pre ← parseBytes? pre
+      let post ← parseBytes? post
+      if toks.all (· == "@") then pure (bytesHex (joinFmt (toks.map fun _ => big) d pre post)) else none
+  | _ => none
+
+def stepLine (_ : Unit) (line : String) : Unit × String :=
+  let r : String :=
+    match words line with
+    | "re" :: ws =>
+        " / ".intercalate ((splitCalls ws []).map fun c =>
+          match c.filter (· ≠ "@t") with
+          | [] => "bad-op"
+          | "re" :: _ => "bad-op"
+          | "long" :: _ => "bad-op"
+          | "premain" :: _ => "bad-op"
+          | cw => stepCore (" ".intercalate cw))
+    | "long" :: n :: u :: t :: cw =>
+        (do
+          let n ← n.toNat?
+          let u ← parseBytes? u
+          let t ← parseBytes? t
+          let big := (List.replicate n u).flatten ++ t
+          let r ← stepLong big cw
+          pure (digest r)).getD "bad-op"
+    | "premain" :: _ :: cw => stepCore (" ".intercalate cw)
+    | ["consts"] => constsLine
+    | ["rsubip", blk, n, a, b] =>
+        (do
+          let blk ← parseBytes? blk
+          let n ← n.toNat?
+          let a ← parseBytes? a
+          let b ← parseBytes? b
+          pure (fmtPR bytesHex (replaceSubstringsInPlace blk n a b))).getD "bad-op"
+    | _ => stepCore line
+  ((), r)
 
 def main : IO Unit := run () stepLine
